@@ -209,7 +209,7 @@ def simplify(case):
         yield c
 
 
-LAWS = ["ties", "ties", "nonpos_ties", "noise", "peak", "negative", "const", "large", "bump"]
+LAWS = ["ties", "ties", "nonpos_ties", "noise", "peak", "negative", "const", "large", "bump", "neartie"]
 
 
 def run_shard(ctx):
